@@ -3,6 +3,9 @@
 C01.lenpres  every string transformer between a Model.parse `query` and its extractor is length-preserving
 C01.span     (start, length, text) triples of output-flowing span objects are coherent wherever they are written
 C01.end      every Model.parse derives start/end/text from one parse result with end = start + length - 1
+C01.modpair  a parser that strips a modifier from its source restores exactly what it stripped
+C01.recode   a result obtained from a re-coded deep copy gets the input's own text back
+C01.textpair a result that leaves with the text its sub-parser copied was given a coherent triple (a cut prefix is put back)
 """
 import ast
 import re
@@ -129,6 +132,12 @@ def _root(e):
     while isinstance(e, (ast.Attribute, ast.Subscript, ast.Call)):
         e = e.func if isinstance(e, ast.Call) else e.value
     return e.id if isinstance(e, ast.Name) else None
+
+
+def _clean(text):
+    """normal form of a verdict text: no object counters (`#12`, `('new', 'loop.idx', 12)` -> `loop.idx`), no nested quoting"""
+    text = spans.strip_ids(text).replace('\\', '')
+    return re.sub(r"\('new', '([\w.]+)', \d+\)", r'\1', text)
 
 
 _FACTS = {}
@@ -314,6 +323,16 @@ def analyse_function(idx, mod, cls, fn, focus=None):
     def on_check(w, st, oid, flds, node, why):
         names = spans.names_of(st, oid)
         label = names[0] if names else spans.strip_ids(symx.show_atom(oid))
+        if not names and isinstance(oid, tuple) and len(oid) == 3 and oid[0] == 'item':
+            # an unnamed element of a list built in this function (`result[group].length = ...`): it reaches the results exactly
+            # when the list does, so it is classified by the names of the list and reported as `<list>[]`
+            cont = oid[1]
+            while not spans.names_of(st, cont) and isinstance(cont, tuple) and len(cont) == 3 and cont[0] == 'item':
+                cont = cont[1]
+            cnames = spans.names_of(st, cont)
+            if cnames:
+                names = list(cnames)
+                label = cnames[0] + '[]'
         cls_ = st.objcls.get(oid)
         has_text = ('text' in flds) or (oid, 'text') in st.heap or cls_ in (None, 'ExtractResult', 'ParseResult',
                                                                           'DateTimeParseResult', 'ModelResult', 'MatchResult')
@@ -339,7 +358,7 @@ def analyse_function(idx, mod, cls, fn, focus=None):
         retn = None
         if why == 'exit' and isinstance(node, ast.Return):
             retn = tuple(sorted(_names(node.value))) if node.value is not None else ()
-        res.setdefault(label, []).append((v[0], spans.strip_ids(v[1]), tuple(sorted(flds)), getattr(node, 'lineno', fn.lineno),
+        res.setdefault(label, []).append((v[0], _clean(v[1]), tuple(sorted(flds)), getattr(node, 'lineno', fn.lineno),
                                           why, tuple(names), kind, retn))
 
     overflow, scen = run_walker(fn, facts, on_check, cls.name if cls else None, focus=focus)
@@ -452,6 +471,8 @@ META = {
             'deferred repair loop); ModelResult construction must be start = X.start, end = X.start + X.length - 1, '
             'text = X.text for one X. Plus a length-effect analysis of the normalisation pipeline: only length-preserving '
             'transformers between a Model.parse query and the extractor, and no offsets taken in a case-folded copy. '
+            'C01.textpair: where a function cuts X.text (start/length left on the uncut text), hands X to a span-copying '
+            'method of its class and finishes the result, no path lets the result leave with the callee\'s (cut) text. '
             'These are necessary conditions of C01 visible in the shape of the code; an off-by-one or a dropped '
             'adjustment in any of these sites changes a normal form and is reported with both forms.',
     'note': 'Not decided: that the regex positions are where the entity is (input-dependent), 0 <= start <= end < len '
@@ -459,7 +480,9 @@ META = {
             '"ParseResult copies start/length of its source" is assumed), objects classified internal (they do not reach '
             'the function results by the syntactic flow criterion: parameters, returned names, appended elements). '
             'Three unprovable sites are exempt by a reviewed table (EXEMPT in c01.py); functions whose path budget is '
-            'exceeded are listed as observations. Known finding: BaseNumberParser.parse (negative merged numbers).',
+            'exceeded are listed as observations. C01.textpair does not judge paths on which nothing is written to the result '
+            'after the call, callees that are not plain span copiers of the same class, nor whole-string replacements '
+            '(C01.recode). Known finding: BaseNumberParser.parse (negative merged numbers).',
     'technique': 'intra-procedural symbolic offset algebra (linear normal forms) + length-effect dataflow of the normalisation pipeline',
 }
 
@@ -1205,9 +1228,223 @@ def run_recode(chk, idx):
                       line)
 
 
+# ---------------------------------------------------------------------------------------------------------------
+# C01.textpair: a function that rewrites the text of a span object X (cuts a prefix off X.text, leaving X.start / X.length
+# on the uncut text), hands X to a sub-parser that copies start/length/text of its argument into its result, and goes
+# on to finish that result (writes its text / value fields) must not let the result leave with the callee's own text:
+# that text is the cut one, while start/length still cover the uncut entity.  Judged per path with the walker: at
+# every checkpoint of a call result whose text is still the callee's, the triple the callee was GIVEN is judged
+# with the same coherence relation as C01.span.  The callee's copy contract is read from the callee.
+
+TEXTPAIR_CONTROL = """
+class P(Parser):
+    def parse(self, source):
+        sign = regex.search(self.config.sign_regex, source.text)
+        if sign:
+            source.text = source.text[len(sign[1]):]
+        ret = self.inner(source)
+        if ret.value is not None:
+            if sign and ret.value != 0:
+                ret.text = sign[1] + source.text
+            ret.text = ret.text.lower()
+        return ret
+
+    def inner(self, er):
+        result = ParseResult(er)
+        result.value = self.compute(er.text)
+        return result
+"""
+
+
+def _call_args(call):
+    return list(call.args) + [k.value for k in call.keywords]
+
+
+def textpair_targets(fn):
+    """(objects X with a store X.text = ... that are later an argument of a call bound to a name, those result names)"""
+    stores = {n.value.id for n in ast.walk(fn) if isinstance(n, ast.Attribute) and isinstance(n.ctx, ast.Store)
+              and n.attr == 'text' and isinstance(n.value, ast.Name) and n.value.id not in ('self', 'cls')}
+    objs, results = set(), set()
+    for n in ast.walk(fn):
+        if isinstance(n, ast.Assign) and isinstance(n.value, ast.Call) and len(n.targets) == 1 and isinstance(n.targets[0], ast.Name):
+            hit = {a.id for a in _call_args(n.value) if isinstance(a, ast.Name) and a.id in stores}
+            if hit:
+                objs |= hit
+                results.add(n.targets[0].id)
+    return objs, results
+
+
+def callee_copies_span(find, facts, fname, pos):
+    """does the method `fname` (looked up by find) return an object that carries start, length and text of its pos-th argument
+    unchanged?  True / False (it sets them itself) / None (callee not readable: not a method of this class, several result names ...)"""
+    m = find(fname) if fname else None
+    if m is None:
+        return None
+    params = [a.arg for a in m.args.args]
+    if params and params[0] in ('self', 'cls'):
+        params = params[1:]
+    if pos >= len(params):
+        return None
+    par = params[pos]
+    rets = [n.value for n in ast.walk(m) if isinstance(n, ast.Return) and n.value is not None
+            and not (isinstance(n.value, ast.Constant) and n.value.value is None)]
+    if not rets or not all(isinstance(r, ast.Name) for r in rets) or len({r.id for r in rets}) != 1:
+        return None
+    res = rets[0].id
+    binds = [n for n in ast.walk(m) if isinstance(n, (ast.Assign, ast.AnnAssign)) and n.value is not None
+             and any(isinstance(t, ast.Name) and t.id == res for t in (n.targets if isinstance(n, ast.Assign) else [n.target]))]
+    if len(binds) != 1 or not (isinstance(binds[0].value, ast.Call) and isinstance(binds[0].value.func, ast.Name)
+                               and binds[0].value.func.id in facts.ctors):
+        return None
+    ctor = binds[0].value
+    copied = set()
+    if ctor.args and isinstance(ctor.args[0], ast.Name) and ctor.args[0].id == par:
+        copied = {fld for fld, src in facts.ctors[ctor.func.id] if src[0] == 'copyarg' and src[1] == 0 and src[3] == fld}
+    top = set(map(id, m.body))
+    for n in ast.walk(m):
+        if isinstance(n, ast.Attribute) and isinstance(n.ctx, ast.Store) and n.attr in ('start', 'length', 'text') \
+                and isinstance(n.value, ast.Name) and n.value.id == par:
+            return False            # the callee itself rewrites the span of what it was given
+    for n in ast.walk(m):
+        tgts = n.targets if isinstance(n, ast.Assign) else [n.target] if isinstance(n, (ast.AugAssign, ast.AnnAssign)) else []
+        for t in tgts:
+            if isinstance(t, ast.Attribute) and t.attr in ('start', 'length', 'text') and isinstance(t.value, ast.Name) and t.value.id == res:
+                v = getattr(n, 'value', None)
+                if isinstance(n, ast.Assign) and id(n) in top and isinstance(v, ast.Attribute) and v.attr == t.attr \
+                        and isinstance(v.value, ast.Name) and v.value.id == par:
+                    copied.add(t.attr)
+                else:
+                    return False    # the result's span is computed, not copied: no contract to rely on
+    return copied >= {'start', 'length', 'text'}
+
+
+def _textpair_function(out, idx, mod, cls, fn, clsname=None, find=None):
+    """-> number of judged (function, callee) instances"""
+    fn, _inl = inline_helpers(idx, mod, cls, fn) if cls is not None else (fn, [])
+    if find is None:
+        def find(name):
+            return idx.find_method(cls, name)[1]
+    objs, results = textpair_targets(fn)
+    if not objs:
+        return 0
+    facts = facts_for(idx, mod)
+    spans.ADJACENT = adjacent_names(fn)
+    q = clsname + '.' + fn.name if clsname else qual(cls, fn)
+    seen = {}
+    unreadable = []
+    opaque = set()
+
+    def on_check(w, st, oid, flds, node, why):
+        given = st.derived_text.get(oid)
+        if not given or why not in ('exit', 'append', 'escape'):
+            return
+        t = as_str(w.field(st, oid, 'text'))
+        names = spans.names_of(st, oid)
+        if why == 'exit' and isinstance(node, ast.Return) and not (set(names) & (_names(node.value) if node.value is not None else set())):
+            return
+        fname, argv = st.calls.get(oid, (None, ()))
+        line = getattr(node, 'lineno', fn.lineno)
+        for (o3, s3, l3), (_o, t3) in zip(st.derived[oid], given):
+            onames = spans.names_of(st, o3)
+            if not (set(onames) & objs):
+                continue
+            key = (fname or '?', ', '.join(onames))
+            t3 = as_str(t3)
+            if not (t.kind == 'otext' and t.obj == oid):
+                # the text was rewritten after the call: C01.span judges what was written
+                seen.setdefault(key, ('ok', 'paths that rewrite the result text are judged by C01.span', line, sorted(flds), []))
+                continue
+            if t3.kind == 'otext' and t3.obj == o3:
+                # not rewritten before the call: the triple is the caller's (coherent on entry by the contract)
+                seen.setdefault(key, ('ok', 'given as received', line, sorted(flds), []))
+                continue
+            v = spans.judge_text(w, st, t3, s3, l3, 0, o3)
+            pos = [i for i, a in enumerate(argv) if isinstance(a, (symx.ObjRef, symx.Unk)) and symx.as_obj(a).id == o3]
+            if v[0] == 'unproven':
+                if t3.kind == 'base':
+                    # a whole new string (a re-coding call, whatever an earlier callee left there): no cut/affix arithmetic of
+                    # this function to judge; whether a re-coded text may leave is C01.recode's / C01.lenpres's question
+                    opaque.add((fname or '?', ', '.join(onames)))
+                    continue
+                unreadable.append('%s:%d %s: the text handed to %s() is not in a form the offset algebra reads (%s)'
+                                  % (mod.rel, line, q, fname, _clean(v[1])[:160]))
+                continue
+            contract = callee_copies_span(find, facts, fname, pos[0]) if pos else None
+            if contract is not True:
+                seen.setdefault(('nocontract',) + key, line)
+                continue
+            cur = seen.get(key)
+            if cur is None or (cur[0] == 'ok' and v[0] != 'ok'):
+                seen[key] = (v[0], _clean(v[1]), line, sorted(flds), list(st.conds[-4:]))
+
+    overflow, scen = run_walker(fn, facts, on_check, clsname or (cls.name if cls else None), focus=objs | results)
+    if unreadable:
+        raise AnalysisError('; '.join(sorted(set(unreadable))))
+    for fname_, src_ in sorted(opaque):
+        out.observe('%s: the result of %s(%s) keeps the callee\'s text and %s.text was replaced by a whole new string before the '
+                    'call: not a cut, not judged by C01.textpair' % (q, fname_, src_, src_))
+    n = 0
+    for key, val in sorted(seen.items(), key=lambda kv: str(kv[0])):
+        if key[0] == 'nocontract':
+            out.observe('%s: result of %s(%s) keeps the callee\'s text after %s.text was rewritten, but the callee is not a plain '
+                        'span copier the checker can read: not judged by C01.textpair' % (q, key[1], key[2], key[2]))
+            continue
+        fname, src = key
+        verdict, why_, line, flds, conds = val
+        cuts = sorted({n.lineno for n in ast.walk(fn) if isinstance(n, ast.Attribute) and isinstance(n.ctx, ast.Store)
+                       and n.attr == 'text' and isinstance(n.value, ast.Name) and n.value.id in src.split(', ')})
+        construct = '%s: %s <- %s(%s)' % (q, 'result', fname, src)
+        n += 1
+        if verdict == 'ok':
+            out.ok('C01.textpair', mod.path, construct, 'the triple handed to the callee is coherent on every path that keeps the '
+                   'callee\'s text', line)
+        else:
+            out.bad('C01.textpair', mod.path, construct, 'callee text kept; given: ' + why_,
+                    '%s: %s.text is rewritten (line %s) while %s.start/length stay, %s() copies start, length and text of what it is given, and '
+                    'on the path [%s] its result leaves with the callee\'s text (fields written afterwards: %s): %s - the text cut off '
+                    'before the call is not put back, so text != query[start..end]'
+                    % (q, src, ', '.join(map(str, cuts)), src, fname, ' & '.join(conds), ', '.join(flds), why_), line)
+    if overflow:
+        out.observe('%s: path budget exceeded in C01.textpair, remaining paths not explored' % q)
+    return n
+
+
+class _CountSink:
+    def __init__(self):
+        self.bad_n = 0
+        self.ok_n = 0
+
+    def bad(self, *a, **k):
+        self.bad_n += 1
+
+    def ok(self, *a, **k):
+        self.ok_n += 1
+
+    def observe(self, *a, **k):
+        pass
+
+
+def run_textpair(chk, idx):
+    rid = 'C01.textpair'
+    chk.rule(rid, 'a result that leaves with the text its sub-parser copied from a source whose text was cut beforehand: the triple '
+                  'handed to the sub-parser is coherent on every such path (a cut prefix is put back wherever it was cut)',
+             floor=1, control=True)
+    um = idx.mod('recognizers_text.utilities')
+    ctl = {n.name: n for n in ast.parse(TEXTPAIR_CONTROL).body[0].body if isinstance(n, ast.FunctionDef)}
+    sink = _CountSink()
+    _textpair_function(sink, idx, um, None, ctl['parse'], clsname='P', find=ctl.get)
+    chk.control(rid, sink.bad_n > 0)
+    for mod, cls, fn in lib_functions(idx):
+        if fn.name == '__init__' or cls is None:
+            continue
+        if _textpair_function(chk, idx, mod, cls, fn):
+            chk.consulted(mod.path)
+
+
 _run_before_recode = run
 
 
 def run(chk):       # noqa: F811
     _run_before_recode(chk)
     run_recode(chk, get_index())
+    run_textpair(chk, get_index())
